@@ -43,6 +43,10 @@ namespace Spectra {
 template <typename OpType, typename BOpType>
 class HermEigsBase
 {
+#ifdef SPECTRA_VERIF
+    friend struct ::SpectraVerifAccess;
+#endif
+
 private:
     using Scalar = typename OpType::Scalar;
     // The real part type of the matrix element, e.g.,
